@@ -16,9 +16,9 @@ floats are opaque tokens, integral floats are canonicalised to `int` by the harn
 
 Deliberate deviations (all outside spec-valid input, never produced by the generator):
 `float("1.5")`-style string→float coercion is modelled for ASCII integer strings only;
-`str.isdigit` is modelled for ASCII digits; `Optional[Union[int,str]]` is modelled as the
-union it denotes (the code collapses it to its first member plus a "permissive" flag, which
-coincides on every JSON value except non-integral floats).
+`str.isdigit` is modelled for ASCII digits.  `Optional[Union[A,B]]` is the union it denotes
+(the pinned commit collapses it to its first member — part of F-C09a/F-C09d, repaired by
+fixes/C09-union-variant.diff).
 -/
 namespace Verif.Model.Schema
 
@@ -377,13 +377,14 @@ end
 /-! ## The specification side: conformance, the expected round trip, sub-object order -/
 
 mutual
-/-- `j` is a spec-valid wire value of type `t`: the JSON type each member type denotes, no coercion.
+/-- `j` is a spec-valid wire value of type `t`: the JSON type each member type denotes, no coercion;
+`null` only where the type is optional (and anywhere inside free-form `Any` payloads).
 At model level: distinct member names, no `null` members (an absent optional member is absent),
 tags and required members present, declared members conform, unknown members are free. -/
 def conforms (cfg : Cfg) (t : Ty) (j : Json) : Bool :=
   match t, j with
+  | t, .null => t.isOpt
   | .any, _ => true
-  | .opt _, .null => true
   | .opt t, j => conforms cfg t j
   | .union a b, j => conforms cfg a j || conforms cfg b j
   | .str, .str _ => true
@@ -392,8 +393,8 @@ def conforms (cfg : Cfg) (t : Ty) (j : Json) : Bool :=
   | .float, .flt _ => true
   | .bool, .bool _ => true
   | .lit vs, .str s => vs.contains s
-  | .list t, .arr xs => conformsList cfg t xs
-  | .dict t, .obj kvs => keysNodup kvs && conformsVals cfg t kvs
+  | .list t, .arr xs => t = .any || conformsList cfg t xs
+  | .dict t, .obj kvs => keysNodup kvs && (t = .any || conformsVals cfg t kvs)
   | .ref cls, .obj kvs =>
     match cfg.find cls with
     | none => false
@@ -577,5 +578,82 @@ def parseMessage (cfg : Cfg) (j : Json) : Except String TVal :=
         else .error "Invalid JSON-RPC message structure"
       | _ => .error "Missing or invalid jsonrpc version"
   | _ => .error "Message must be a dict or list"
+
+end Verif.Model.Schema
+
+namespace Verif.Model.Schema
+
+/-! ## Specification relations of C10 (not executable: `Prop`-valued) -/
+
+mutual
+/-- `Preserved j j'`: every member of `j` is preserved exactly in `j'`; objects of `j'` may carry more members -/
+def Preserved (j j' : Json) : Prop :=
+  match j, j' with
+  | .arr xs, .arr ys => ys = xs ∨ PreservedList xs ys
+  | .obj kvs, .obj out => out = kvs ∨ PreservedMembers kvs out
+  | a, b => b = a
+termination_by (sizeOf j, 0)
+
+def PreservedList (xs ys : List Json) : Prop :=
+  match xs, ys with
+  | [], [] => True
+  | x :: r, y :: s => Preserved x y ∧ PreservedList r s
+  | _, _ => False
+termination_by (sizeOf xs, 0)
+
+def PreservedMembers (kvs out : List (String × Json)) : Prop :=
+  match kvs with
+  | [] => True
+  | (k, x) :: r => (match lookup k out with
+      | some y => Preserved x y
+      | none => False) ∧ PreservedMembers r out
+termination_by (sizeOf kvs, 0)
+end
+
+mutual
+/-- `AddedOk t j j'`: walking input `j` and output `j'` along the type, every member of a typed
+object of `j'` that the input did not have is a declared default of its class -/
+def AddedOk (cfg : Cfg) (t : Ty) (j j' : Json) : Prop :=
+  match t, j, j' with
+  | .opt t, j, j' => AddedOk cfg t j j'
+  | .union a b, j, j' =>
+    if exactAny (.union a b) j then j' = j
+    else if conforms cfg a j then AddedOk cfg a j j' else AddedOk cfg b j j'
+  | .list t, .arr xs, .arr ys => AddedList cfg t xs ys
+  | .dict t, .obj kvs, .obj out => AddedVals cfg t kvs out
+  | .ref cls, .obj kvs, .obj out =>
+    match cfg.find cls with
+    | none => out = kvs
+    | some c =>
+      (∀ m ∈ out, hasKey m.1 kvs = false →
+        ∃ f ∈ c.fields, f.wire = m.1 ∧ ∃ d, f.default = some d ∧ m.2 = dump cfg true true d)
+      ∧ AddedMembers cfg c kvs out
+  | _, j, j' => j' = j
+termination_by (sizeOf j, sizeOf t)
+
+def AddedList (cfg : Cfg) (t : Ty) (xs ys : List Json) : Prop :=
+  match xs, ys with
+  | [], [] => True
+  | x :: r, y :: s => AddedOk cfg t x y ∧ AddedList cfg t r s
+  | _, _ => False
+termination_by (sizeOf xs, 0)
+
+def AddedVals (cfg : Cfg) (t : Ty) (kvs out : List (String × Json)) : Prop :=
+  match kvs, out with
+  | [], [] => True
+  | (k, x) :: r, (k', y) :: s => k' = k ∧ AddedOk cfg t x y ∧ AddedVals cfg t r s
+  | _, _ => False
+termination_by (sizeOf kvs, 0)
+
+/-- the declared members that the input had: walk into them -/
+def AddedMembers (cfg : Cfg) (c : Class) (kvs out : List (String × Json)) : Prop :=
+  match kvs with
+  | [] => True
+  | (k, x) :: r =>
+    (match c.byWire k, lookup k out with
+      | some f, some y => AddedOk cfg f.ty x y
+      | _, _ => True) ∧ AddedMembers cfg c r out
+termination_by (sizeOf kvs, 0)
+end
 
 end Verif.Model.Schema
